@@ -90,6 +90,11 @@ class C09(MsgProp):
                 yield ("ENC " + g.message(r, n, "wild"), "wild", True)
         for w in ("E", "C", "U0", "U1150", "U4095", "U65535"):
             yield ("ENC " + w, "no-wire-form", True)
+        for n, fid in ((1059, "df_msg1059_biases"), (1065, "df_msg1065_biases")):
+            for shape in ("flood", "flood", "over31", "allsats", "cap", "badsat"):
+                head = g.frag(r, g.mod_of[n], "valid")
+                c = [k for k, t in enumerate(head) if t.startswith("c")][0]
+                yield ("ENC %d %s" % (n, " ".join(head[:c] + g.bias_list(r, fid, "wild", shape=shape))), "bias-" + shape, True)
         # regression inputs of the repaired defects D2, D3, D4, D5
         for f in g.frags.values():
             if f["macro"] == "msm_data_seg_frag":
@@ -226,7 +231,7 @@ class C14(MsgProp):
             ans = ctx.run_all([exe], ops, 20.0)
             for op, a in zip(ops, ans):
                 fr = bytes.fromhex(op.split()[1])
-                L = len(fr) - 6
+                L = ((fr[1] & 3) << 8) | fr[2]      # the frame's own length field (bytes may follow the frame)
                 if L < 2:
                     ok = a == "EMPTY"
                 else:
@@ -268,6 +273,31 @@ class C12(MsgProp):
         for n in (1057, 1060, 1066):
             late_fail.append(g.message(r, n, "wild", lens=10 ** 6))
         special = ["E", "C", "U1150"]
+        # length ladder: a frame followed by one whose body is 1..3 bytes longer or shorter, so that the
+        # second frame's last body byte / checksum lands on bytes the first one left behind
+        ladder = []
+        for n in (1007, 1008, 1033, 1029, 1001, 1009, 1005, 1006, 1013, 1230):
+            if n not in g.numbers:
+                continue
+            for k in range(0, 12):
+                ladder.append(g.message(r, n, "safe", lens=k))
+                ladder.append(g.message(r, n, "safe", lens=k))
+        ans = ctx.run_all([ctx.exe_release], ["ENC " + m for m in ladder], 20.0)
+        sized = [(len(a) // 2, m) for m, a in zip(ladder, ans) if not a.startswith("ERR") and a not in ("PANIC", "BAD-OP", "CRASH", "HANG")]
+        by_len = {}
+        for L, m in sized:
+            by_len.setdefault(L, []).append(m)
+        pairs = 0
+        for L in sorted(by_len):
+            for dlt in (1, 2, 3, -1, -2, -3):
+                if L + dlt in by_len:
+                    for a in by_len[L][:3]:
+                        for b in by_len[L + dlt][:3]:
+                            if pairs < (400 if ctx.tier == "quick" else 4000):
+                                pairs += 1
+                                yield ("BUILDSEQ " + a + " ; " + b, "length-ladder", True)
+                                if pairs % 5 == 0:
+                                    yield ("BUILDSEQ " + r.choice(big) + " ; " + a + " ; " + b, "length-ladder-3", True)
         n_seq = 150 if ctx.tier == "quick" else 2500
         for _ in range(n_seq):
             k = r.randrange(1, 7 if ctx.tier == "quick" else 11)
@@ -457,6 +487,11 @@ class C16(MsgProp):
                 op = "ENC %d %s" % (n, " ".join(toks))
                 self.plan.append((n, op))
                 yield (op, "bias-" + shape, shape not in ("empty", "small"))
+        for n, fid in ((1059, "df_msg1059_biases"), (1065, "df_msg1065_biases")):
+            for shape in ("flood", "flood", "over31"):
+                head = g.frag(r, g.mod_of[n], "valid")
+                c = [k for k, t in enumerate(head) if t.startswith("c")][0]
+                yield ("ENC %d %s" % (n, " ".join(head[:c] + g.bias_list(r, fid, "wild", shape=shape))), "bias-" + shape + "-dups", True)
         for i in range(per):
             head = g.frag(r, "msg1230", "valid")
             c = [k for k, t in enumerate(head) if t.startswith("c")][0]
